@@ -1162,6 +1162,22 @@ theorem mem_sortDesc (k : γ → Nat) (y : γ) : ∀ l, y ∈ sortDesc k l ↔ y
   | [] => by simp [sortDesc]
   | x :: r => by simp [sortDesc, mem_insertDesc, mem_sortDesc k y r]
 
+theorem insertDesc_perm (k : γ → Nat) (x : γ) : ∀ l, (insertDesc k x l).Perm (x :: l)
+  | [] => List.Perm.refl _
+  | z :: r => by
+    unfold insertDesc
+    by_cases h : k x < k z
+    · simp only [h, if_true]
+      exact ((insertDesc_perm k x r).cons z).trans (List.Perm.swap x z r)
+    · simp only [h, if_false]
+      exact List.Perm.refl _
+
+theorem sortDesc_perm (k : γ → Nat) : ∀ l, (sortDesc k l).Perm l
+  | [] => List.Perm.refl _
+  | x :: r => by
+    simp only [sortDesc]
+    exact (insertDesc_perm k x _).trans ((sortDesc_perm k r).cons x)
+
 theorem mem_linkEdges (s : String) : ∀ (links : List Link) (l : Link), l ∈ links → s ∈ l.sources →
     (s, targetNode l.target) ∈ linkEdges links
   | [], _, h, _ => by simp at h
